@@ -2,9 +2,9 @@
 (* Code -> specification for exception propagation.  $TRACE_FILE: {"descs": [...], "traces": [[event...]...]} recorded
    from real exceptions crossing real configurables: ["Enter", conf, scope] per wrapper frame that the exception will
    cross, ["Raise", descriptor id, site], one ["Propagate"] per frame, and ["Catch", sameClass, readable kinds, number of
-   suffixes found in the message].  Validated against GinExc *with the named deviations of today's code switched on*:
-   what the code does must be a behaviour of that specification (anything else - a lost suffix, a changed class, an
-   attribute kind that stops forwarding - is rejected). *)
+   suffixes found in the message].  Validated against GinExc with the named deviations switched *off* (since the fix of
+   F13 / F14 the code follows the intended design): a lost suffix, a changed class or an attribute kind that stops
+   forwarding is rejected. *)
 EXTENDS GinExc, Json, IOUtils, TLCExt, SequencesExt
 
 Input == JsonDeserialize(IOEnv.TRACE_FILE)
